@@ -15,4 +15,6 @@ CONSTANTS
   Depth = 30
   MaxChurn = 6
   MinAlive = 1
+  GenOps = {"Send", "Die", "Fail", "Adjust", "GetRoutees"}
+  MaxDelta = 99
 CONSTRAINT Emit
